@@ -516,7 +516,14 @@ func genHistCase(r *vlib.R, emit func(string)) int {
 		steps = 10 + r.Intn(12)
 	}
 	count := 1
+	jcap := 40
+	if g.aligned {
+		jcap = 13
+	}
 	for s := 0; s < steps; s++ {
+		if hist != nil && (hist.taint || hist.j >= int64(jcap)) {
+			break // a slow op may have stamped entries late, or the second is used up: end the case
+		}
 		count++
 		switch k := r.Intn(100); {
 		case k < 28 || len(g.admitted) == 0:
@@ -684,6 +691,11 @@ func (g *genHist) pickAdvance() int64 {
 }
 
 func gen(r *vlib.R, n int, tier string, emit func(string)) {
+	// vlib seeds splitmix64 with seed*golden, which makes the streams of
+	// consecutive seeds shifted copies of one another; re-key from the first
+	// output so that every VERIF_SEED explores different cases (still fully
+	// determined by the seed).
+	r = vlib.NewR(r.U64() ^ 0x5DEECE66D)
 	for _, sc := range scenarios {
 		for _, op := range sc {
 			emit(op)
